@@ -131,8 +131,17 @@ def mcmc_case(draw, tier, holes=False, maxN=None):
         st.fixed_dictionaries({"mode": st.just("seed"), "seed": st.integers(0, 2 ** 31)}),
         st.fixed_dictionaries({"mode": st.just("seed"), "seed": st.integers(0, 2 ** 31)}),
         st.fixed_dictionaries({"mode": st.just("script"), "ints": st.lists(st.integers(0, 200), max_size=60),
-                               "tail": st.integers(0, 10 ** 6)})))
-    return {"net": net, "target": tgt, "L": L, "search": search, "rng": r}
+                               "tail": st.integers(0, 10 ** 6),
+                               # acceptance variates: extremal values first (0.0 is a legal outcome of random())
+                               "floats": st.lists(st.sampled_from([0.0, 0.0, 0.0, 0.25, 0.75, 0.999999]), max_size=120)})))
+    c = {"net": net, "target": tgt, "L": L, "search": search, "rng": r}
+    if draw(st.integers(0, 4)) == 4:
+        c["earlier_rewire"] = True
+    if draw(st.integers(0, 3)) == 3:
+        # the rewiring object is first constructed for another network on the same vertex labels (other joint
+        # degrees), then given this network through its public setter
+        c["constructed_for_shift"] = draw(st.integers(1, 7))
+    return c
 
 
 def snapshot(G):
@@ -170,7 +179,7 @@ def run_rewire(case):
     target_swaps = (case["L"] if case["L"] is not None else 10 * len(R.before[1])) + 1
     budget = min(DRAW_BUDGET, 4000 + 500 * target_swaps)
     ctx = (rng.scripted(ints=[], tail_seed=r["seed"], budget=budget) if r["mode"] == "seed"
-           else rng.scripted(ints=r["ints"], tail_seed=r.get("tail", 0), budget=budget))
+           else rng.scripted(ints=r["ints"], tail_seed=r.get("tail", 0), budget=budget, floats=r.get("floats") or ()))
     # find the working copy even when rewire() does not return: remember every JournalGraph created
     created = []
     orig_init = JournalGraph.__init__
@@ -183,8 +192,25 @@ def run_rewire(case):
         with ctx:
             try:
                 R.where = "construct"
-                m = MarkovChainMonteCarloRewiring(params)
+                sh = case.get("constructed_for_shift")
+                if sh:
+                    n_ = net["N"]
+                    other = {"N": n_, "topos": net["topos"],
+                             "motifs": [[ti, [(v + sh) % n_ for v in vs]] for ti, vs in net["motifs"]]}
+                    G0, _ = NC.build_graph(other)
+                    N0 = Network()
+                    N0.G = G0
+                    p0 = dict(params)
+                    p0[TN.NETWORK] = N0
+                    m = MarkovChainMonteCarloRewiring(p0)
+                    m.network = N
+                else:
+                    m = MarkovChainMonteCarloRewiring(params)
                 R.where = "rewire"
+                if case.get("earlier_rewire"):
+                    # an earlier rewire() on the same object; only the last call is analysed
+                    m.rewire()
+                    del created[:]
                 R.out = m.rewire()
             except rng.Budget:
                 R.budget = True
